@@ -490,7 +490,8 @@ Proof.
   { intros g Hg. apply asleepW_other; auto. rewrite Hbl. auto. }
   assert (NQ : forall u g r, stk s u = QReady g :: r -> u <> t).
   { intros u g r E ->. rewrite HT in E. discriminate. }
-  pose proof (s_nodup s S) as ND. rewrite HQ in ND. inversion ND as [|? ? NDf NDr]; subst.
+  pose proof (s_nodup s S) as ND. rewrite HQ in ND.
+  assert (NDf : ~ In f rest) by (inversion ND; auto). assert (NDr : NoDup rest) by (inversion ND; auto).
   assert (Af : asleepW s f) by (apply (s_mq s S); rewrite HQ; left; auto).
   assert (Hft : f <> t) by (intros ->; auto).
   assert (K1 : kqwait (stk s t) = 0 /\ kpop (stk s t) = 0 /\ kadd (stk s t) = 0 /\ kpp (stk s t) = 1)
@@ -503,11 +504,8 @@ Proof.
   - constructor; cbn [base mem stk nthr mk].
     + intros u. destruct (Nat.eq_dec u t) as [->|Hu].
       * rewrite upd_same. apply sh_pready. destruct RUN. split; [rewrite Hfs|rewrite Hsl]; auto.
-      * rewrite upd_other by assumption. apply (shape_frame (mem s)); auto.
-        -- apply (s_shape s S).
-        -- rewrite Hfs; auto.
-        -- rewrite Hsl; auto.
-        -- rewrite Hbl; auto.
+      * rewrite upd_other by assumption.
+        apply (shape_frame (mem s)); [apply (s_shape s S)|rewrite Hfs; auto|rewrite Hsl; auto|rewrite Hbl; auto].
     + intros u Hu. rewrite upd_other by lia. apply (s_hi s S); auto.
     + intros u. rewrite Hm1, Hm2, Hm3, Hm4. apply (s_slots s S).
     + rewrite Hmq. auto.
@@ -581,11 +579,8 @@ Proof.
         -- rewrite Hsl. inversion H; auto.
         -- rewrite Hbl, upd_same; auto.
         -- rewrite Hfs, upd_same; auto.
-      * rewrite upd_other by assumption. apply (shape_frame (mem s)); auto.
-        -- apply (s_shape s S).
-        -- rewrite Hfs, upd_other; auto.
-        -- rewrite Hsl; auto.
-        -- rewrite Hbl, upd_other; auto.
+      * rewrite upd_other by assumption.
+        apply (shape_frame (mem s)); [apply (s_shape s S)|rewrite Hfs, upd_other; auto|rewrite Hsl; auto|rewrite Hbl, upd_other; auto].
     + intros u Hu. rewrite upd_other by lia. apply (s_hi s S); auto.
     + intros u. rewrite Hm1, Hm2, Hm3, Hm4. apply (s_slots s S).
     + rewrite Hmq. apply (s_nodup s S).
@@ -611,3 +606,35 @@ Proof.
     constructor; cbn [base ini g bR gP gPcas gPwake gWfast gWslow gTok gR]; unfold counter; cbn [mem mk];
       rewrite ?E1, ?E2, ?E3, ?E4, ?EQ, ?Hwd; try lia.
 Qed.
+
+(* ------------------------------------------------------------------ *)
+Lemma istep_form x t m' e' T' :
+  kstep sc cret (mem (base x)) t (stk (base x) t) = (m', e', T') ->
+  istep x t = {| base := mk (base x) m' t T'; ini := ini x; g := gstep (base x) t T' (g x) |}.
+Proof. intros H. unfold istep, step. rewrite H. cbn. unfold mk. rewrite upd_same. reflexivity. Qed.
+
+Ltac loc_tac L Hlt HT :=
+  apply local_step;
+  [ exact L | exact Hlt
+  | intros u Hu; cbn; rewrite ?upd_other by auto; reflexivity
+  | intros u Hu; cbn; rewrite ?upd_other by auto; reflexivity
+  | reflexivity | reflexivity | reflexivity | reflexivity | reflexivity | reflexivity
+  | try (apply (not_asleep_top _ _ _ _ HT); discriminate)
+  | rewrite HT; reflexivity | reflexivity | intros; discriminate
+  | | | | | | ].
+
+Lemma linv_step x t : LInv x -> status_of (base x) t = SReady -> LInv (istep x t).
+Proof.
+  intros L E. pose proof L as [S C].
+  unfold status_of in E. destruct (t <? nthr (base x))%nat eqn:Hlt; [|discriminate].
+  apply Nat.ltb_lt in Hlt.
+  pose proof (s_shape _ S t) as H. remember (stk (base x) t) as T eqn:HT. symmetry in HT.
+  destruct (s_slots _ S t) as (SL1 & SL2 & SL3 & SL4).
+  destruct H.
+  - (* done *) cbn in E. discriminate.
+  - (* Start *)
+    destruct p as [|[| |] p].
+    + erewrite istep_form; [|rewrite HT; cbn; reflexivity].
+      loc_tac L Hlt HT.
+      Show.
+Abort.
